@@ -80,7 +80,7 @@ def _satsolve_filein_fileout(F, cmd='minisat', verbose=0):
                              stdin=subprocess.PIPE,
                              stdout=subprocess.PIPE)
         (output, _) = p.communicate()
-        sat = open(sat.name, "r", encoding='ascii')
+        sat = open(sat.name, "r", encoding='ascii', errors='replace')
         foutput = sat.read().split()
         sat.close()
     except OSError:
@@ -97,7 +97,7 @@ def _satsolve_filein_fileout(F, cmd='minisat', verbose=0):
     result = None
     witness = None
 
-    output = output.decode("ascii")
+    output = output.decode('ascii', errors='replace')
     if verbose >= 2:
         print(output, file=sys.stderr)
 
@@ -110,7 +110,11 @@ def _satsolve_filein_fileout(F, cmd='minisat', verbose=0):
 
         result = True
 
-        witness = [int(v) for v in foutput[1:] if v != '0']
+        try:
+            witness = [int(v) for v in foutput[1:] if v != '0']
+        except ValueError:
+            raise RuntimeError("Error during SAT solver call: {}.\n".format(
+                " ".join([cmd, cnf.name, sat.name])))
         # Sort the the witness by variable id
         witness = sorted(witness, key=abs)
 
@@ -202,7 +206,7 @@ def _satsolve_stdin_stdout(F, cmd='lingeling', verbose=0):
     result = None
 
     # result is given as ASCII encoded text
-    output = output.decode('ascii')
+    output = output.decode('ascii', errors='replace')
 
     if verbose >= 2:
         print(output, file=sys.stderr)
@@ -221,9 +225,13 @@ def _satsolve_stdin_stdout(F, cmd='lingeling', verbose=0):
             else:
                 result = None
         if line[0] == 'v':
-            witness += [
-                int(el) for el in line.split() if el != "v" and el != "0"
-            ]
+            try:
+                witness += [
+                    int(el) for el in line.split() if el != "v" and el != "0"
+                ]
+            except ValueError:
+                raise RuntimeError(
+                    "Error during SAT solver call: {}.\n".format(cmd))
 
     if result is None:
         raise RuntimeError("Error during SAT solver call: {}.\n".format(cmd))
@@ -299,7 +307,7 @@ def _satsolve_filein_stdout(F, cmd='sat4j', verbose=0):
     result = None
 
     # result is given as ASCII encoded text
-    output = output.decode('ascii')
+    output = output.decode('ascii', errors='replace')
     if verbose >= 2:
         print(output, file=sys.stderr)
 
@@ -317,9 +325,13 @@ def _satsolve_filein_stdout(F, cmd='sat4j', verbose=0):
             else:
                 result = None
         if line[0] == 'v':
-            witness += [
-                int(el) for el in line.split() if el != "v" and el != "0"
-            ]
+            try:
+                witness += [
+                    int(el) for el in line.split() if el != "v" and el != "0"
+                ]
+            except ValueError:
+                raise RuntimeError(
+                    "Error during SAT solver call: {}.\n".format(cmd))
 
     if result is None:
         raise RuntimeError(
